@@ -138,6 +138,9 @@ def expected(m):
         'receivers': components(m, 'receiver'),
         'providers': components(m, 'provider'),
         'main_activities': sorted(main_activities(m)),
+        # launcher entries that are real <activity> elements (not aliases)
+        'main_declared_activities': sorted({complete_name(m['package'], c['name']) for c in m['components']
+                                            if is_main(c) and c['kind'] == 'activity'}),
         'min_sdk': sdk(m, 'min'), 'target_sdk': sdk(m, 'target'), 'max_sdk': sdk(m, 'max'),
         'effective_target_sdk': effective_target_sdk(m),
         'features': features(m),
